@@ -129,12 +129,12 @@ func (e *Exec) builtin(st *State, fr *Frame, x *ssa.Call, b builtinV, args []Val
 		st.panicMsg = "explicit panic at " + e.pos(x)
 		return []stepOut{{st: st, fr: fr, panicked: true}}
 	case "recover":
-		if st.panicVal != nil {
-			fr.locals[x] = st.panicVal
-			if _, ok := st.panicVal.(IfaceV); !ok {
-				fr.locals[x] = IfaceV{T: types.Typ[types.String], V: st.panicVal}
+		if st.pending != nil {
+			fr.locals[x] = st.pending
+			if _, ok := st.pending.(IfaceV); !ok {
+				fr.locals[x] = IfaceV{T: types.Typ[types.String], V: st.pending}
 			}
-			st.panicVal = nil
+			st.pending = nil
 			st.panicMsg = ""
 		} else {
 			fr.locals[x] = IfaceV{}
